@@ -9,7 +9,8 @@ regenerated from the working tree) against the running interpreter's own parser:
                   spacing, parentheses, trailing commas, string / number spellings, statement layout;
   domain filter   a text is an input iff `ast.parse(text, mode=m)` accepts it, and CPython's tree of
                   *that text* is the expected tree (no generator or rule is trusted);
-  modes           exec for every text, eval for expression programs, single for one-statement ones.
+  modes           exec for every text; eval for expression programs (canonical texts and the full rewrite
+                  class); single for one-statement canonical texts.
 
 Oracle (from the statement): xonsh accepts the text, its tree equals CPython's after removing only
 compiler-invisible differences, and compile() of xonsh's tree succeeds whenever compile() of
@@ -29,28 +30,29 @@ Does NOT require (never flagged):
     point (Execer.parse/eval/exec, script loading) drives it - exec/single text gets a final "\\n" if
     it has none, eval text has trailing newlines stripped.
 
-Classification.  Every failing input is minimised deterministically (replace sub-trees of CPython's
-own derivation of the text by the simplest alternative, hoist children, delete token / line windows,
-simplify literals and layout - always keeping CPython acceptance and the *same failure signature*).
-key = "<signature> @ <minimised text>" where the signature is reject:<parser message class>,
-ast-diff:<Node.field:got!=expected> of the first difference, compile-fail:<message class> or
-crash:<exception type>.  Many inputs share one key; a failure whose minimised form differs from every
-listed known finding is a new violation."""
+Classification.  Every failing input is minimised deterministically (xv/c01_min.py: replace sub-trees
+of CPython's own derivation of the text by the simplest alternative, hoist children, delete token /
+line windows, simplify literals, operators and layout - always keeping CPython acceptance and the
+failure).  key = "<signature> @ <minimised text>" ("[eval] "/"[single] " before the text when the
+failure does not occur in exec mode) where the signature is
+  reject:<class of the parser's message, e.g. code:= / code:NAME / unexpected newline>,
+  ast-diff:<Node.field> where the trees first part (":len" for a list of different length),
+  compile-fail:<class of compile()'s message>, crash:<exception type> or hang.
+Identifier differences that vanish when the *input text* is NFKC-normalised are attributed to one key
+(repair transform).  Many inputs share one key; a failing input whose minimised form differs from
+every listed known finding is a new violation."""
 
 from __future__ import annotations
 
 import ast
 import hashlib
-import io
 import json
-import os
-import time
 import keyword
+import os
 import re
 import signal
+import time
 import unicodedata
-import token as T
-import tokenize
 import warnings
 
 from . import common
@@ -100,14 +102,14 @@ def cpython_parse(text, mode):
 def xonsh_parse(text, mode):
     """-> ('ok', tree) | ('reject', msgclass) | ('crash', exc type) | ('hang', '')."""
     p = _parser()
-    signal.signal(signal.SIGALRM, _alarm)
-    signal.setitimer(signal.ITIMER_REAL, 20.0)
+    signal.signal(signal.SIGPROF, _alarm)  # CPU-time budget: independent of how loaded the machine is
+    signal.setitimer(signal.ITIMER_PROF, 20.0)
     try:
         tree = p.parse(feed_text(text, mode), filename="<c01>", mode=mode)
         return "ok", tree
     except _Timeout:
         _parser(fresh=True)
-        return "hang", "no result within 20 s"
+        return "hang", "no result within 20 s of CPU time"
     except SyntaxError as e:
         return "reject", _msg_class(e)
     except RecursionError:
@@ -117,7 +119,7 @@ def xonsh_parse(text, mode):
         _parser(fresh=True)
         return "crash", type(e).__name__
     finally:
-        signal.setitimer(signal.ITIMER_REAL, 0)
+        signal.setitimer(signal.ITIMER_PROF, 0)
 
 
 _NUM = re.compile(r"\d+")
@@ -331,9 +333,6 @@ def classify(text, mode, sig):
 
 # ----------------------------------------------------------------------------- exploration
 
-_CFG = {}
-
-
 def _digest(mode, text):
     return hashlib.blake2b((mode[0] + text).encode("utf-8", "surrogatepass"), digest_size=8).digest()
 
@@ -352,7 +351,8 @@ def _gen_root(item):
     for text, is_expr, cost in en.root_programs(root, bud, red):
         raw += 1
         text += "\n"
-        if text not in out:
+        old = out.get(text)
+        if old is None or (2 * cost[0] + cost[1], cost) < (2 * old[1][0] + old[1][1], old[1]):
             out[text] = (is_expr, cost)
     return raw, [(t, e, c) for t, (e, c) in out.items()]
 
@@ -376,11 +376,10 @@ def _explore(item):
         if tree is None:
             return False
         modes = ["exec"]
-        if all_modes:
-            if len(tree.body) == 1 and isinstance(tree.body[0], ast.Expr):
-                modes.append("eval")
-            if len(tree.body) == 1:
-                modes.append("single")
+        if all_modes >= 1 and len(tree.body) == 1 and isinstance(tree.body[0], ast.Expr):
+            modes.append("eval")
+        if all_modes >= 2 and len(tree.body) == 1:
+            modes.append("single")
         any_ok = False
         for m in modes:
             t_m = t.rstrip("\n") if m == "eval" else t  # an expression text as eval() receives it
@@ -404,17 +403,17 @@ def _explore(item):
                         f[1] = ex
         return any_ok
 
-    consider(text, "canonical", True)
+    consider(text, "canonical", 2)
     tree0 = cpython_parse(text, "exec")
     kinds = sorted({type(n).__name__ for n in ast.walk(tree0)}) if tree0 is not None else []
     first = []
     for name, new in rw.rewrites(text, light=(klass == "light")):
-        if consider(new, name, klass != "light") and klass == "pairs" and name in PAIR_RULES:
+        if consider(new, name, 0 if klass == "light" else 1) and klass == "pairs" and name in PAIR_RULES:
             first.append(new)
     # a second rewrite instance on top of every accepted first one
     for t1 in first:
         for name, new in rw.rewrites(t1, PAIR_RULES):
-            consider(new, "pair:" + name, False)
+            consider(new, "pair:" + name, 0)
     stats["wall"] = time.perf_counter() - t0
     stats["kinds"] = kinds
     return stats, b"".join(digests), fails
